@@ -64,8 +64,11 @@ func (l *ListSearch) sendNewLoc(operation chan<- Task, task Task) {
 func (l *ListSearch) updateMajor(operation chan<- Task, task Task) {
 	// Update the best value seen so far, and send a MajorIteration.
 	// The first value received is the best so far even if it is +Inf or
-	// NaN, and any value is better than NaN.
-	if l.bestIdx == -1 || task.F < l.bestF || (math.IsNaN(l.bestF) && !math.IsNaN(task.F)) {
+	// NaN, and any value is better than NaN. Among equal values the one
+	// with the lowest row index is the best, so that the location found
+	// does not depend on the order in which concurrent evaluations finish.
+	tie := task.F == l.bestF || (math.IsNaN(task.F) && math.IsNaN(l.bestF))
+	if l.bestIdx == -1 || task.F < l.bestF || (math.IsNaN(l.bestF) && !math.IsNaN(task.F)) || (tie && task.ID < l.bestIdx) {
 		l.bestF = task.F
 		l.bestIdx = task.ID
 	} else {
